@@ -95,7 +95,7 @@ Definition o_token (t : token) : out :=
   | TInt n => o_tag 2 [o_N n]
   | TDec lead m sc => o_tag 3 [o_bool lead; o_N m; o_nat sc]
   | TDate y m d => o_tag 4 [o_N y; o_N m; o_N d]
-  | TStr dq s => o_tag 5 [o_bool dq; o_str s]
+  | TStr s => o_tag 5 [o_str s]
   | TTable s => o_tag 6 [o_str s]
   | TPlaceS => o_tag 7 []
   | TPlaceN s => o_tag 8 [o_str s]
